@@ -53,6 +53,7 @@ type txMeta struct {
 	judge    *mChain        // IBTP: the chain whose master rule judges the proof
 	eth      pb.Transaction // an Ethereum-format transaction: the block carries this instead of the placeholder
 	ethLabel string         // key label of its sender
+	kvKey, kvVal, kvMethod string // storage contract: record, value and method of the invocation
 }
 
 // blockTx is what the block carries at a position: the transaction itself, or the Ethereum-format one it stands for.
@@ -110,6 +111,7 @@ type scn struct {
 	relaySet                        map[int]bool      // validator indexes in the trust root currently stored for the other BitXHub (observed)
 	relayN                          int
 	icCum                           uint64      // C09: interchain transactions counted over all blocks (incl. the prologue)
+	kvModel                         map[string]string     // records of the storage contract: value of the last successful write
 	auditSponsor                    map[string]*Key       // proposal id -> account that submitted the audit operation
 	hist                            map[uint64]*histEntry // per height: what the reference computed (kept only when a replica lags, Policy.Burst)
 	prevRefDump                     [][2]string // state store of the reference replica after the previous block (only kept when there are other replicas)
@@ -859,6 +861,7 @@ func (s *scn) flush() *blockResult {
 	s.ibtp.afterBlock(h, txs, metas, ref)
 	s.grp.afterBlock(h, txs, metas, ref)
 	s.afterBlockExtra(h, txs, metas, ref)
+	s.kvAfterBlock(h, metas, ref)
 	s.checkRouter(h, txs, ref)
 	if s.cfg.Relay > 0 && !s.inSetup {
 		s.observeRelaySet()
